@@ -83,7 +83,14 @@ fn gen_ring(r: &mut Rng, c: &Cfg, dims: usize) -> Vec<V> {
                         x * 2.0
                     }
                 };
-                if dims == 4 && r.chance(0.5) {
+                if r.chance(0.2) {
+                    // first and last differ only in the SIGN of a zero measure (or Z): they are equal,
+                    // the ring already counts as closed
+                    let k = if dims == 4 && r.chance(0.5) { 2 } else { 3 };
+                    v[0][k] = 0.0f64.to_bits();
+                    l = v[0];
+                    l[k] = (-0.0f64).to_bits();
+                } else if dims == 4 && r.chance(0.5) {
                     l[2] = f64::to_bits(differ(f64::from_bits(l[2])));
                 } else {
                     l[3] = f64::to_bits(differ(f64::from_bits(l[3])));
